@@ -161,6 +161,26 @@ push_harness!(h_push_a128, A128x16, 1024);
 // @assume as h_push_zst
 push_harness!(h_push_a64_big, A64x17, 1024);
 
+// more capture shapes (thorough)
+// @verif prop=C17,C16 tier=thorough timeout=2400 mem=12 unwind=34 leakcheck=1
+// @enc as h_push_zst
+// @sym as h_push_zst; T = [u64;5] (size 40, align 8); capacity 256
+// @bound one push + one drain step from an arbitrary fill level
+// @assume as h_push_zst
+push_harness!(h_push_w5, [u64; 5], 256);
+// @verif prop=C17,C16 tier=thorough timeout=2400 mem=12 unwind=34 leakcheck=1
+// @enc as h_push_zst
+// @sym as h_push_zst; T = [u32;3] (size 12, align 4); capacity 128
+// @bound one push + one drain step from an arbitrary fill level
+// @assume as h_push_zst
+push_harness!(h_push_d3, [u32; 3], 128);
+// @verif prop=C17,C16 tier=thorough timeout=2400 mem=12 unwind=34 leakcheck=1
+// @enc as h_push_zst
+// @sym as h_push_zst; T = [u16;5] (size 10, align 2); capacity 128
+// @bound one push + one drain step from an arbitrary fill level
+// @assume as h_push_zst
+push_harness!(h_push_h5, [u16; 5], 128);
+
 // align(): result is the next multiple of pow2 at or after p, less than pow2 away, for every pow2 alignment 1..128
 // @verif prop=C17,C16 tier=quick timeout=1200 mem=6 unwind=10
 // @enc hvec::align hvec::align_off
